@@ -2,6 +2,7 @@ package simrt
 
 import (
 	"reflect"
+	"sync"
 	"unsafe"
 )
 
@@ -20,7 +21,11 @@ func accessible(v reflect.Value) reflect.Value {
 	return reflect.NewAt(v.Type(), unsafe.Pointer(v.UnsafeAddr())).Elem()
 }
 
-type copier struct{ ptrs map[unsafe.Pointer]reflect.Value }
+type ptrKey struct {
+	p unsafe.Pointer
+	t reflect.Type
+}
+type copier struct{ ptrs map[ptrKey]reflect.Value }
 
 func (c *copier) copy(v reflect.Value) reflect.Value {
 	switch v.Kind() {
@@ -28,7 +33,7 @@ func (c *copier) copy(v reflect.Value) reflect.Value {
 		if v.IsNil() {
 			return v
 		}
-		p := v.UnsafePointer()
+		p := ptrKey{v.UnsafePointer(), v.Type()}
 		if n, ok := c.ptrs[p]; ok {
 			return n
 		}
@@ -99,14 +104,54 @@ func (c *copier) copy(v reflect.Value) reflect.Value {
 // deepCopy returns a value that shares no mutable memory with v and is detached from the
 // variable v may be a view of.
 func deepCopy(v reflect.Value) reflect.Value {
-	c := &copier{ptrs: map[unsafe.Pointer]reflect.Value{}}
+	c := &copier{ptrs: map[ptrKey]reflect.Value{}}
 	n := reflect.New(v.Type()).Elem()
 	n.Set(c.copy(v))
 	return n
 }
 
+func noteShimFunc(f any) { shimFuncPtrs[reflect.ValueOf(f).Pointer()] = true }
+
+// RestoreDisabled is set when the package state contains something that cannot be put back
+// (a non-nil function value that is not one of the simulator's own Once closures: state may
+// hide in its closure). Restoring the rest would create a state no real process can reach,
+// so nothing is restored and cases share the process state, as production code would.
+var RestoreDisabled string
+
+func hasOpaqueFunc(v reflect.Value, depth int) bool {
+	if depth > 6 || !v.IsValid() {
+		return false
+	}
+	switch v.Kind() {
+	case reflect.Func:
+		return !v.IsNil() && !shimFuncPtrs[v.Pointer()]
+	case reflect.Ptr, reflect.Interface:
+		if v.IsNil() {
+			return false
+		}
+		return hasOpaqueFunc(v.Elem(), depth+1)
+	case reflect.Struct:
+		if skipType(v.Type()) {
+			return false
+		}
+		for i := 0; i < v.NumField(); i++ {
+			if hasOpaqueFunc(v.Field(i), depth+1) {
+				return true
+			}
+		}
+	}
+	return false
+}
+
 // SnapshotGlobals records the current value of every registered package-level variable.
 func SnapshotGlobals() {
+	nOnceAtSnapshot = len(shimOnces)
+	for _, g := range Globals {
+		pv := reflect.ValueOf(g.Ptr)
+		if pv.Kind() == reflect.Ptr && !pv.IsNil() && hasOpaqueFunc(pv.Elem(), 0) {
+			RestoreDisabled = g.Name + " holds a function value whose closure may carry state"
+		}
+	}
 	snapshot = make([]reflect.Value, len(Globals))
 	for i, g := range Globals {
 		pv := reflect.ValueOf(g.Ptr)
@@ -121,9 +166,14 @@ func SnapshotGlobals() {
 }
 
 // RestoreGlobals puts the snapshot back (a fresh deep copy each time).
+var nOnceAtSnapshot int
+
 func RestoreGlobals() {
-	if snapshot == nil {
+	if snapshot == nil || RestoreDisabled != "" {
 		return
+	}
+	for _, o := range shimOnces[:nOnceAtSnapshot] {
+		*o = sync.Once{}
 	}
 	for i, g := range Globals {
 		if !snapshot[i].IsValid() {
@@ -152,4 +202,64 @@ func GlobalHashes() []uint64 {
 		out[i] = DeepHash(g.Ptr)
 	}
 	return out
+}
+
+// Component is a first-level part of a package variable: an element of an array or short
+// slice, a field of a struct (through one pointer, if the variable is a pointer).
+type Component struct {
+	Addr uintptr // 0 = the variable as a whole
+	Hash uint64
+}
+
+// GlobalComponents hashes every registered package variable component by component.
+func GlobalComponents() [][]Component {
+	out := make([][]Component, len(Globals))
+	for i, g := range Globals {
+		out[i] = components(reflect.ValueOf(g.Ptr))
+	}
+	return out
+}
+
+func components(pv reflect.Value) (res []Component) {
+	whole := []Component{{0, 0}}
+	defer func() {
+		if recover() != nil {
+			res = whole
+		}
+	}()
+	if pv.Kind() != reflect.Ptr || pv.IsNil() {
+		return whole
+	}
+	whole[0].Hash = DeepHash(pv.Interface())
+	v := pv.Elem()
+	if skipType(v.Type()) {
+		return whole
+	}
+	if v.Kind() == reflect.Ptr && !v.IsNil() && !skipType(v.Type().Elem()) {
+		v = v.Elem()
+	}
+	switch v.Kind() {
+	case reflect.Array, reflect.Slice:
+		if v.Len() == 0 || v.Len() > 256 {
+			return whole
+		}
+		for i := 0; i < v.Len(); i++ {
+			e := v.Index(i)
+			if !e.CanAddr() {
+				return whole
+			}
+			res = append(res, Component{e.UnsafeAddr(), DeepHash(accessible(e).Addr().Interface())})
+		}
+		return res
+	case reflect.Struct:
+		if !v.CanAddr() || v.NumField() == 0 {
+			return whole
+		}
+		for i := 0; i < v.NumField(); i++ {
+			f := accessible(v.Field(i))
+			res = append(res, Component{f.UnsafeAddr(), DeepHash(f.Addr().Interface())})
+		}
+		return res
+	}
+	return whole
 }
